@@ -12,6 +12,21 @@ def gen_f2(rng, tier):
     for _ in range(n):
         yield reggen.gen_history(rng, rng.choice([20, 40]), f2=True)
 
+def gen_handles(rng, tier):
+    """ONE span's handles: created on some thread, cloned, dropped on any of up to 4 threads, presence looked up — for the
+    interleaved model Core/HandleRace run one call at a time"""
+    n = 200 if tier == 'quick' else 4000
+    for _ in range(n):
+        ops = ['ns %d 0 r' % rng.randrange(4)]; held = 1
+        for _ in range(rng.choice([4, 8, 16])):
+            r = rng.random()
+            if held and r < 0.45: ops.append('cl 0'); held += 1
+            elif held and r < 0.85: ops.append('dr %d 0' % rng.randrange(4)); held -= 1
+            else: ops.append('lk 0')
+        while held: ops.append('dr %d 0' % rng.randrange(4)); held -= 1
+        ops.append('lk 0')
+        yield ' ; '.join(ops)
+
 def nontrivial(case, out):
     s = reggen.stats(case, out)
     return s['spans'] >= 3 and s['closes'] >= 2 and (s['cascade'] >= 1 or s['threads'] >= 2)
@@ -39,7 +54,7 @@ PROPERTY = {
                 'reference count of every span still in the registry = handles held + threads entered on + children still open, by an accounting invariant that allows one span to hold one reference too many while try_close '
                 'cascades up the parent chain (which ends: a parent is always an older span); hence closed_means_nothing_left (never earlier) and nothing_left_means_gone (not later). '
                 'Interleaved releases: a transition system over the atomic operations on one span\'s count, parametrised by whether try_close decides on the value its own fetch_sub returned (close_decision_code_fact, extracted from sharded.rs): '
-                'n threads releasing the n references under EVERY schedule, at most one concludes that it was the last and exactly one once the count is 0 (one_closer_interleaved); with a separate load two do (two_closers_witness); real threads dropping handles together (h_stress) must see each span closed once. '
+                'n threads releasing the n references under EVERY schedule, at most one concludes that it was the last and exactly one once the count is 0 (one_closer_interleaved); with a separate load two do (two_closers_witness); real threads dropping handles together (h_stress) must see each span closed once. Threads as PROGRAMS (Core/HandleRace: clone / drop / a handle moved to another thread, legal only through handles held; any interleaving): the span is reported closed at most once and HAS been reported exactly when no thread holds a handle (closed_exactly_when_last_handle_goes); with a non-atomic clone it is closed under a held handle, with a separately loaded decision closed twice (witnesses); the same model run one call at a time is compared with the real Registry (stream seqhandle). '
                 'The real Registry (two recording layers: close notifications, data readable inside on_close, presence afterwards) is compared with the compiled model AND with the count-free specification Spec/RegistrySpec.lean.',
         'note': 'Trusted: Lean kernel; propext/Classical.choice/Quot.sound; sharded_slab (fresh key per checkout, clear runs Clear; ids mapped to creation indices); sequential at op granularity '
                 '(the history model; the fetch_sub race has its own interleaved model, one span at a time); known finding F2 (exit/clear close through the CURRENT default; under no/foreign default parents leak or the wrong registry is hit) is the excluded region.',
@@ -52,10 +67,12 @@ PROPERTY = {
     'units': ['AtomicCounts'],
     'required_theorems': ['C05.close_once', 'C05.step_inv', 'C05.tryClose_inv', 'C05.f2_witness',
                           'C05.refcount_sum', 'C05.closed_means_nothing_left', 'C05.nothing_left_means_gone', 'C05.tryClose_acc', 'C05.step_acc',
-                          'C05.close_decision_code_fact', 'C05.one_closer_interleaved', 'C05.two_closers_witness'],
+                          'C05.close_decision_code_fact', 'C05.one_closer_interleaved', 'C05.two_closers_witness',
+                          'C05.closed_exactly_when_last_handle_goes', 'C05.closed_under_a_handle_witness', 'C05.closed_twice_witness'],
     'streams': [
         Stream('own', 'h_registry', gen=gen, nontrivial=nontrivial, spec_mode='spec'),
         Stream('f2', 'h_registry', gen=gen_f2, nontrivial=nontrivial, spec_mode='spec'),
+        Stream('seqhandle', 'h_registry', mode='modelhandle', gen=gen_handles, nontrivial=lambda case, out: case.count('cl 0') >= 2 and 'x0r' in out),
     ],
     'rule': 'one case = one history over a forest of <=14 spans on 1-3 threads: create (contextual/root/explicit parent), clone, drop, guard-style enter/exit incl. out-of-order exits deep in the stack and '
             'occasional same-thread re-entry, events, Span::current, scope walks, presence lookups; every history ends by exiting and dropping everything; stream f2 additionally switches a thread\'s default to none; '
